@@ -46,7 +46,58 @@ def twin_lines(ctx, n_each):
         c = c12.gen_case(rnd)
         if not any(w in c["pattern"] for w in ("time", "thread")):
             lines.append(c12.case_line("c12_%d" % i, c))
+    from ..core import hexs
+    for j, tmpl in enumerate(["app.log", "b.%{time}.log", "c.%{time yyyy}.log", "d%{time hh_mm}x.log", "e.%{time  dd.MM}.txt", "%{time}"]):
+        lines.append("FP fp_%d %s" % (j, hexs(tmpl)))
     return lines
+
+
+OPTION_SETS = [[], ["QTLOGGER_NO_THREAD"], ["QTLOGGER_SYSLOG"], ["QTLOGGER_NO_THREAD", "QTLOGGER_SYSLOG"], ["QTLOGGER_DEBUG"]]
+
+
+def option_probes(ctx, repo):
+    """For every documented configuration macro set with which the library sources compile, a program that includes nothing but the
+    top-level header must compile, link and run too.  -> (runs, list of (key, what))"""
+    import glob
+    from concurrent.futures import ThreadPoolExecutor
+    qt = subprocess.run(["pkg-config", "--cflags", "Qt5Core"], stdout=subprocess.PIPE, text=True).stdout.split()
+    qtl = subprocess.run(["pkg-config", "--libs", "Qt5Core"], stdout=subprocess.PIPE, text=True).stdout.split()
+    srcs = sorted(glob.glob(os.path.join(repo, "src/qtlogger/**/*.cpp"), recursive=True))
+    skip = ("androidlogsink", "oslogsink", "windebugsink", "sdjournalsink", "httpsink")
+    srcs = [f for f in srcs if not any(k in f for k in skip)]
+    probe = os.path.join(core.VERIF, "drivers", "probes", "hdr_probe.cpp")
+
+    def one(opts):
+        defs = ["-D" + o for o in opts]
+        tag = "+".join(opts) or "default"
+        # library sources with these options (syntax only: does this configuration exist?)
+        for f in srcs:
+            if "syslogsink" in f and "QTLOGGER_SYSLOG" not in opts:
+                continue
+            r = subprocess.run(["g++", "-std=gnu++17", "-fsyntax-only", "-fPIC", "-DQTLOGGER_STATIC"] + defs + qt +
+                               ["-I" + os.path.join(repo, "src"), "-I" + os.path.join(repo, "src", "qtlogger"), f],
+                               stdout=subprocess.PIPE, stderr=subprocess.STDOUT, text=True)
+            if r.returncode != 0:
+                return tag, "library-does-not-compile", r.stdout[-300:]
+        d = os.path.join(ctx.tmp, "probe-" + tag)
+        os.makedirs(os.path.join(d, "logs"), exist_ok=True)
+        exe = os.path.join(d, "probe")
+        r = subprocess.run(["g++", "-std=gnu++17", "-O0", "-fPIC"] + defs + qt + ["-I" + repo, probe, "-o", exe] + qtl,
+                           stdout=subprocess.PIPE, stderr=subprocess.STDOUT, text=True)
+        if r.returncode != 0:
+            return tag, "header-only-build-fails", r.stdout[-700:]
+        env = core.base_env(d)
+        r = subprocess.run([exe, os.path.join(d, "logs")], env=env, stdout=subprocess.PIPE, stderr=subprocess.PIPE, text=True, timeout=120)
+        if r.returncode != 0:
+            return tag, "header-only-probe-crashes", "rc=%s %s" % (r.returncode, r.stderr[-300:])
+        return tag, "ok", r.stdout
+    with ThreadPoolExecutor(max_workers=len(OPTION_SETS)) as ex:
+        results = list(ex.map(one, OPTION_SETS))
+    found = []
+    for tag, status, detail in results:
+        if status in ("header-only-build-fails", "header-only-probe-crashes"):
+            found.append(("C20:header-only:%s:%s" % (status, tag), detail))
+    return results, found
 
 
 def fix_ids(lines):
@@ -129,12 +180,21 @@ def run(ctx):
         else:
             distinct.add("twin:" + cid)
     evaluations += twin_cmp
+    # 4. the header must be usable on its own under every documented configuration macro set
+    probe_results, probe_found = option_probes(ctx, repo)
+    for key, what in probe_found:
+        ctx.violation(key, what, {"probe": key})
+    evaluations += len(probe_results)
+    for tag, status, _ in probe_results:
+        if status == "ok":
+            distinct.add("probe:" + tag)
     cov = {
         "explanation": "Ran tools/gen_qtlogger.h.py on a scratch copy of src/ + tools/ of the current working tree and compared its output "
                        "byte-for-byte with the committed top-level qtlogger.h; then, for each of the %d source files under src/qtlogger, "
                        "appended a unique marker comment in the scratch copy, re-ran the generator and required the marker to appear "
                        "exactly once with nothing else changed (every source edit is reflected); finally ran %d deterministic cases "
-                       "through drv_fmt built against libqtlogger.a and against the top-level header only and required identical results."
+                       "through drv_fmt built against libqtlogger.a and against the top-level header only and required identical results; and built + "
+                       "ran a program that includes nothing but the top-level header under each documented configuration macro set."
                        % (len(files), twin_cmp),
         "evaluations": evaluations,
         "distinct_nontrivial": len(distinct),
@@ -144,6 +204,7 @@ def run(ctx):
         "unreflected_sources": unreflected,
         "header_bytes": len(committed),
         "header_equals_generator_output": gen0 == committed,
+        "header_only_probe_by_configuration": {tag: status for tag, status, _ in probe_results},
     }
     return ctx.finish(cov, ["the generator script in tools/ defines 'amalgamation'", "header-only twin compiled with g++ -O1, no sanitizer"],
                       min_evals=10)
